@@ -18,6 +18,7 @@ import (
 	"os"
 	"sort"
 	"strings"
+	"time"
 
 	"github.com/nuetzliches/hookaido/internal/queue"
 	"pgregory.net/rapid"
@@ -42,6 +43,62 @@ type reloadSys struct {
 	Probes  []ReqSpec `json:"probes"`
 	Bad     string    `json:"bad,omitempty"` // unreadable parse compile secret restart
 	Sched   []int     `json:"sched,omitempty"`
+	// PullProbes: dequeues on the Pull API (endpoint path, bearer token) served
+	// while the reload runs.
+	PullProbes []PullProbe `json:"pull_probes,omitempty"`
+}
+
+type PullProbe struct {
+	Path  string `json:"path"`
+	Token string `json:"token"`
+}
+
+// pullOutcome: status and the routes of the items handed out.
+func (w *ReloadWorld) pullOutcome(resp *Resp) string {
+	var body struct {
+		Items []struct {
+			Route string `json:"route"`
+		} `json:"items"`
+	}
+	_ = json.Unmarshal(resp.Body, &body)
+	seen := map[string]bool{}
+	var routes []string
+	for _, it := range body.Items {
+		if !seen[it.Route] {
+			seen[it.Route] = true
+			routes = append(routes, it.Route)
+		}
+	}
+	sort.Strings(routes)
+	return fmt.Sprintf("status=%d items_of=%v", resp.Status, routes)
+}
+
+func (w *ReloadWorld) pullProbeReq(pp PullProbe) *http.Request {
+	req, err := NewRequest("POST", pp.Path+"/dequeue", "pull.internal", "10.9.9.9:5", []KV{{"Authorization", "Bearer " + pp.Token}, {"Content-Type", "application/json"}}, []byte(`{"batch":1,"lease_ttl":"1s"}`))
+	if err != nil {
+		return nil
+	}
+	return req
+}
+
+// stock makes sure every route of the given configurations holds a ready
+// message (stored directly, not through ingress), so that a dequeue shows which
+// route it was served from.
+func (w *ReloadWorld) stock(n int, specs ...*SysSpec) {
+	seen := map[string]bool{}
+	for _, sp := range specs {
+		for i := range sp.Routes {
+			r := sp.Routes[i].Path
+			if seen[r] {
+				continue
+			}
+			seen[r] = true
+			for k := 0; k < n; k++ {
+				w.tok++
+				_ = w.Node.RawStore.Enqueue(queue.Envelope{ID: fmt.Sprintf("stock-%04d", w.tok), Route: r, Target: "pull", Payload: []byte("stock")})
+			}
+		}
+	}
 }
 
 type ReloadWorld struct {
@@ -230,7 +287,7 @@ func RunAtomicProgram(p *Program) *Result {
 	}
 	spec := *sys.Spec
 	arm := func(l string) bool {
-		return strings.HasPrefix(l, "app.reloadConfig#") || strings.HasPrefix(l, "ingress.Server.ServeHTTP#")
+		return strings.HasPrefix(l, "app.reloadConfig#") || strings.HasPrefix(l, "ingress.Server.ServeHTTP#") || strings.HasPrefix(l, "pullapi.Server.ServeHTTP#")
 	}
 	iw, err := NewIngressWorld(&spec, p.Offset, SysOptions{Seed: 1, ArmPoints: arm})
 	if err != nil {
@@ -244,6 +301,17 @@ func RunAtomicProgram(p *Program) *Result {
 	for _, pr := range sys.Probes {
 		oldOut = append(oldOut, w.probe(pr))
 	}
+	var oldPull []string
+	for _, pp := range sys.PullProbes {
+		w.stock(1, &spec, sys.NewSpec)
+		if req := w.pullProbeReq(pp); req != nil {
+			oldPull = append(oldPull, w.pullOutcome(w.Do("pullprobe", w.Pull, req)))
+		} else {
+			oldPull = append(oldPull, "unbuildable")
+		}
+	}
+	w.Clock.Advance(2 * time.Second) // the probes' leases (1s) are over
+	w.stock(len(sys.PullProbes)+1, &spec, sys.NewSpec) // each probe takes one message (batch 1)
 	if err := os.WriteFile(w.cfgPath, []byte(sys.NewSpec.Render()), 0o600); err != nil {
 		w.Res.Trouble = err.Error()
 		return w.Res
@@ -258,6 +326,16 @@ func RunAtomicProgram(p *Program) *Result {
 		if t != nil {
 			tasks = append(tasks, t)
 		}
+	}
+	nIngress := len(tasks) - 1
+	var pullTasks []*Task
+	for _, pp := range sys.PullProbes {
+		var t *Task
+		if req := w.pullProbeReq(pp); req != nil {
+			t = w.Start("pullprobe", w.Pull, req)
+			tasks = append(tasks, t)
+		}
+		pullTasks = append(pullTasks, t)
 	}
 	if k := w.Sched.Interleave(tasks, sys.Sched); k != "done" {
 		w.Res.Trouble = "interleave: " + k + " " + w.Sched.Trouble
@@ -274,11 +352,17 @@ func RunAtomicProgram(p *Program) *Result {
 	}
 	w.Res.probe("atomic.reload.ok")
 	var mid []outcome
-	for i, t := range tasks[1:] {
-		rec, _ := t.Result.(interface{ Result() *http.Response })
-		_ = rec
+	for i, t := range tasks[1 : 1+nIngress] {
 		resp := w.finish(t, "done")
 		mid = append(mid, w.outcomeOf(resp, toks[i]))
+	}
+	var midPull []string
+	for _, t := range pullTasks {
+		if t == nil {
+			midPull = append(midPull, "unbuildable")
+			continue
+		}
+		midPull = append(midPull, w.pullOutcome(w.finish(t, "done")))
 	}
 	// outcomes under the new configuration (quiescent)
 	var newOut []outcome
@@ -297,10 +381,30 @@ func RunAtomicProgram(p *Program) *Result {
 			w.addV("C18.atomic.mixture", "atomic/ingress", "request %s %s served during a reload got {%s}: neither the old configuration's outcome {%s} nor the new one's {%s}", pr.Method, pr.Path, mid[i], oldOut[i], newOut[i])
 		}
 	}
+	// pull probes under the new configuration (quiescent), then the verdict
+	for i, pp := range sys.PullProbes {
+		w.Clock.Advance(2 * time.Second)
+		w.stock(1, &spec, sys.NewSpec)
+		newPull := "unbuildable"
+		if req := w.pullProbeReq(pp); req != nil {
+			newPull = w.pullOutcome(w.Do("pullprobe", w.Pull, req))
+		}
+		w.Res.logf("pull probe %d (%s tok=%s): old {%s} during {%s} new {%s}", i, pp.Path, pp.Token, oldPull[i], midPull[i], newPull)
+		if oldPull[i] != newPull {
+			w.Res.probe("atomic.pullprobe.old_new_differ")
+			w.Res.probe("atomic.probe.old_new_differ")
+		}
+		if midPull[i] != oldPull[i] && midPull[i] != newPull {
+			w.Res.probe("atomic.pullprobe.mixture")
+			v := viol("C18.atomic.mixture", "C18,C11", "dequeue on %s with token %q served during a reload got {%s}: neither the old configuration's outcome {%s} nor the new one's {%s}", pp.Path, pp.Token, midPull[i], oldPull[i], newPull)
+			v.Loc = "atomic/pull"
+			w.Res.Violations = append(w.Res.Violations, v)
+			w.Res.logf("  VIOLATION %s", v.String())
+		}
+	}
 	if w.Sched.Switches > 0 {
 		w.Res.probe("atomic.task_switches")
 	}
-	_ = queue.StateQueued
 	return w.Res
 }
 
@@ -384,6 +488,17 @@ func genChangedSpec(t *rapid.T, spec *SysSpec) *SysSpec {
 		case 5: // body limit
 			ns.Routes[ri].MaxBody = 4
 		}
+		if len(ns.Routes) > 1 && rapid.IntRange(0, 3).Draw(t, "swap_pull") == 0 {
+			// two routes exchange their pull endpoints; each keeps its own tokens
+			a, b := 0, len(ns.Routes)-1
+			ns.Routes[a].PullPath, ns.Routes[b].PullPath = ns.Routes[b].PullPath, ns.Routes[a].PullPath
+			if len(ns.Routes[a].PullTokens) == 0 {
+				ns.Routes[a].PullTokens = []string{"route-tok-a"}
+			}
+			if len(ns.Routes[b].PullTokens) == 0 {
+				ns.Routes[b].PullTokens = []string{"route-tok-b"}
+			}
+		}
 	}
 	return &ns
 }
@@ -395,7 +510,31 @@ func GenAtomicProgram(t *rapid.T) *Program {
 	ns := *nsp
 	sys := reloadSys{Spec: spec, NewSpec: &ns}
 	sys.Probes = genProbes(t, spec, &ns)
-	sys.Sched = rapid.SliceOfN(rapid.IntRange(0, 5), 0, 60).Draw(t, "sched")
+	// dequeues with the tokens and endpoint paths of both configurations
+	var paths, toks []string
+	for _, sp := range []*SysSpec{spec, &ns} {
+		toks = append(toks, sp.PullTokens...)
+		for i := range sp.Routes {
+			if sp.Routes[i].PullPath != "" {
+				paths = append(paths, sp.Routes[i].PullPath)
+			}
+			toks = append(toks, sp.Routes[i].PullTokens...)
+		}
+	}
+	if len(paths) > 0 && len(toks) > 0 {
+		for k := rapid.IntRange(0, 3).Draw(t, "npull"); k > 0; k-- {
+			sys.PullProbes = append(sys.PullProbes, PullProbe{Path: rapid.SampledFrom(paths).Draw(t, "pp.path"), Token: rapid.SampledFrom(toks).Draw(t, "pp.tok")})
+		}
+	}
+	type seg struct{ who, n int }
+	segs := rapid.SliceOfN(rapid.Custom(func(t *rapid.T) seg {
+		return seg{rapid.IntRange(0, 5).Draw(t, "who"), rapid.SampledFrom([]int{1, 1, 2, 3, 5, 8, 13, 21, 34}).Draw(t, "len")}
+	}), 0, 12).Draw(t, "sched")
+	for _, sg := range segs {
+		for i := 0; i < sg.n && len(sys.Sched) < 240; i++ {
+			sys.Sched = append(sys.Sched, sg.who)
+		}
+	}
 	p.Sys, _ = json.Marshal(sys)
 	return p
 }
